@@ -30,6 +30,12 @@ SharedInputs(s, hv) ==   \* witness for reports
       a # b /\ a \in DOMAIN hv.lockedBy[w] /\ b \in DOMAIN hv.lockedBy[w]
       /\ hv.lockedBy[w][a] \cap hv.lockedBy[w][b] # {}}
 
+\* a slate never has two live sent entries in one wallet (a repeated or re-delivered step
+\* never adds a second log entry / reservation for the same slate)
+OneLiveEntryPerSlate(s) ==
+  \A w \in Wallets(s) : \A a, b \in LiveSent(s, w) :
+      (a # b /\ s.w[w].txs[a].slate # "") => s.w[w].txs[a].slate # s.w[w].txs[b].slate
+
 \* a context created by a selecting step never contains an output that was
 \* reserved (Locked) before the step and is still reserved after it
 SelectAvoidsReserved(s, s2, w, sl) ==
